@@ -11,12 +11,13 @@
 #define H_HOOKS 1
 #endif
 enum { CFG_BASEFLAGS = 0 /* [r]: bit0 disable_on_drop_in, bit1 dgs enabled, bit2 acts enabled */, CFG_OP = 1 /* [j]: packed op */, CFG_RET = 2 /* unused */ };
-/* op packing: kind (0 add, 1 remove) | tag << 1 | target << 2 (0 r0, 1 r1, 2 unknown, 3 r0+r1, 4 r0+unknown) | content << 5 (1 dgs, 2 acts, 3 both) | hook << 7 */
+/* op packing: kind (0 add, 1 remove) | tag << 1 (0..3) | target << 3 (0 r0, 1 r1, 2 unknown, 3 r0+r1, 4 r0+unknown) | content << 6 (1 dgs, 2 acts, 3 both) | hook << 8 */
 #define OP_KIND(o) ((int)((o) & 1))
-#define OP_TAG(o) ((int)(((o) >> 1) & 1))
-#define OP_TARGET(o) ((int)(((o) >> 2) & 7))
-#define OP_CONTENT(o) ((int)(((o) >> 5) & 3))
-#define OP_HOOK(o) ((int)(((o) >> 7) & 1))
+#define OP_TAG(o) ((int)(((o) >> 1) & 3))
+#define OP_TARGET(o) ((int)(((o) >> 3) & 7))
+#define OP_CONTENT(o) ((int)(((o) >> 6) & 3))
+#define OP_HOOK(o) ((int)(((o) >> 8) & 1))
+#define OP_PACK(kind, tag, target, content, hook) ((kind) | ((tag) << 1) | ((target) << 3) | ((content) << 6) | ((hook) << 8))
 /* 5-bit event codes: base r: det 1+2r, act 2+2r; drop-in of op j, sub-ruleset s (0/1): det 5+4j+2s, act 6+4j+2s */
 #define CODE_BASE_DET(r) (1 + 2 * (r))
 #define CODE_BASE_ACT(r) (2 + 2 * (r))
